@@ -579,6 +579,14 @@ impl StorageEngine {
             return Ok(0);
         }
 
+        // Reject unknown knowledge graphs before anything is persisted. Without this check the
+        // delete was logged to shard `{kg}:{relation}` and only then failed, and the next
+        // restart rediscovered `kg` from that shard as a knowledge graph that never existed
+        // (or that had been dropped).
+        if !self.knowledge_graphs.contains_key(kg) {
+            return Err(StorageError::KnowledgeGraphNotFound(kg.to_string()));
+        }
+
         // Hold dropping_kgs read guard across the persist operation (same as insert)
         let dropping_guard = self.dropping_kgs.read();
         if dropping_guard.contains(kg) {
